@@ -112,6 +112,27 @@ def run_raise(long stop, int nthreads, long mask):
         return r
     return ('ok', n)
 
+from posix.unistd cimport usleep
+
+def run_raise_and_break(int nthreads, int raise_delay_us, int break_delay_us):
+    """two iterations on two threads: iteration 0 raises E(0) after raise_delay_us, iteration 1 breaks after
+    break_delay_us: the delays force the order in which the two exits reach the shared exit bookkeeping"""
+    cdef long i
+    try:
+        for i in prange(2, nogil=True, num_threads=nthreads, schedule='static', chunksize=1):
+            if i == 0:
+                usleep(raise_delay_us)
+                with gil:
+                    raise E(i)
+            else:
+                usleep(break_delay_us)
+                break
+    except E as exc:
+        r = ('E', exc.args[0])
+        del exc
+        return r
+    return ('ok', -1)
+
 def live_count():
     import gc
     gc.collect()
@@ -251,10 +272,13 @@ def run_old(ctx, quick):
         for k in (0, 7, 19, 25):
             ecases.append(("run_break", [20, t, k]))
             ecases.append(("run_return", [20, t, k]))
+    for t in (2, 4):
+        for rd, bd in ((0, 150000), (150000, 0), (0, 0), (20000, 20000)):
+            ecases.append(("run_raise_and_break", [t, rd, bd]))
     ecall = []
     for f, a in ecases:
         ecall.append(["c37_omp.%s" % f, a])
-        if f == "run_raise":
+        if f in ("run_raise", "run_raise_and_break"):
             ecall.append(["c37_omp.live_count", []])
     eres = cybuild.call_cases(ctx.workdir, ecall, setup="import c37_omp", alarm=30, extra_env={"OMP_WAIT_POLICY": "passive", "GOMP_SPINCOUNT": "0"})
     it = iter(eres)
@@ -263,6 +287,19 @@ def run_old(ctx, quick):
         inp = {"func": f, "args": a}
         ctx.case(f, inp, sig=(f, tuple(a)))
         got = tup(r)
+        if f == "run_raise_and_break":
+            lc = tup(next(it))
+            # an error is preferred over break in every order (model: finish gives why = 4 whenever an exception
+            # was saved), and the exception object is released afterwards
+            order = ["E:0:0", "X:1:2"] if a[1] <= a[2] else ["X:1:2", "E:0:0"]
+            mm = model.batch(["protocol " + " ".join(order)])[0].split()
+            if mm[0] != "4":
+                ctx.corr_break("prange:protocol", inp, got, mm)
+            if got != ("E", 0):
+                ctx.fail("prange_exception_lost_to_break", inp, got, ("E", 0))
+            if lc != 0:
+                ctx.fail("prange_exception_leak", inp, {"live exception objects after the call": lc}, 0)
+            continue
         if f == "run_raise":
             lc = tup(next(it))
             mask = a[2]
